@@ -154,12 +154,27 @@ impl Synth {
 	}
 	/// lays out `items` starting at buffer offset `at`; returns the offset after them. `which` = chosen alternative indices
 	fn lay(&mut self, items: &[Item], mut at: usize, rng: &mut Rng, tail: &mut usize) -> usize {
-		for it in items {
+		for (idx, it) in items.iter().enumerate() {
 			match it {
 				Item::Byte(b) => { self.put(at, *b, rng); at += 1; },
 				Item::Str(s) => { for (i, b) in s.iter().enumerate() { self.put(at + i, *b, rng); } at += s.len(); },
 				Item::Wild(n) | Item::SkipN(n) => { self.reserve(at, *n as usize, rng); at += *n as usize; },
-				Item::Range(a, b) => { let k = rng.range(*a as u64, *b as u64 - 1) as usize; self.reserve(at, k, rng); at += k; self.ambiguous = true; },
+				Item::Range(a, b) => {
+					let k = rng.range(*a as u64, *b as u64 - 1) as usize;
+					self.reserve(at, k, rng);
+					// false starts: the byte that follows the skip also occurs inside the skipped window (the retry loop must
+					// come back to the right candidate with the program counter and the cursor restored)
+					if let Some(Item::Byte(x)) = items.get(idx + 1) {
+						if k >= 1 && rng.chance(1, 2) {
+							for _ in 0..rng.range(1, 2) {
+								let j = at + rng.below(k as u64) as usize;
+								if !self.owned[j] { self.buf[j] = *x; }
+							}
+						}
+					}
+					at += k;
+					self.ambiguous = true;
+				},
 				Item::Save => self.saves.push(self.base_rva + at as u32),
 				Item::Read(signed, n) => {
 					self.reserve(at, *n as usize, rng);
@@ -242,6 +257,17 @@ fn gen(rng: &mut Rng, _i: u64) -> String {
 			if rng.chance(1, 3) { items.extend(gen_flat(rng, 3, true)); }
 			if rng.chance(1, 4) { items.insert(0, Item::Align(rng.below(36) as u8)); }
 			if rng.chance(1, 4) { items.push(Item::Wild(rng.range(250, 600) as u32)); items.push(Item::SkipN(rng.below(16384) as u32)); items.push(Item::Wild(2)); }
+			// range skips of every magnitude: lower bounds and widths on both sides of 256 (the Skip / Rangext / Many encoding)
+			if rng.chance(1, 3) {
+				let a = *rng.pick(&[0u32, 1, 255, 256, 257, 300, 511, 512, 4095, 8192]) + rng.below(3) as u32;
+				let w = *rng.pick(&[1u32, 2, 255, 256, 257, 300, 600, 1024, 4000]) + rng.below(3) as u32;
+				let b = (a + w).min(16383);
+				if a < b {
+					let at = rng.below(items.len() as u64 + 1) as usize;
+					items.insert(at, Item::Range(a, b));
+					items.insert(at + 1, Item::Byte(rng.byte()));
+				}
+			}
 			let mut toks = Vec::new();
 			ast_tokens(&items, &mut toks);
 			format!("syn text={} ast={}", hex(show_canon(&items).as_bytes()), join(&toks, ","))
